@@ -32,6 +32,10 @@ let handle = function
     let st = stored m (bytes_of_hex ad) (z_of_string ac) in
     Printf.sprintf "%d %d" (sign_of_z (kcmp (tie_of tie) m (bytes_of_hex ad, z_of_string ac) (bytes_of_hex bd, z_of_string bc)))
       (sign_of_z (sblk_cmp_key_full (tie_of tie) m st (bytes_of_hex bd) (z_of_string bc)))
+  | ["sblkcmp"; md; lk; full; kd; kc] ->
+    (match sblk_cmp_key memcmp (mode md) (bytes_of_hex lk) (full = "1") (bytes_of_hex kd) (z_of_string kc) with
+     | None -> "NONE"
+     | Some r -> string_of_int (sign_of_z r))
   | ["afcmp"; tie; a; b] -> string_of_int (sign_of_z (afcmp (tie_of tie) (bytes_of_hex a) (bytes_of_hex b)))
   | ["macro"; "overlap"; a; b; c; d] -> string_of_z (iW_RANGES_OVERLAP (z_of_string a) (z_of_string b) (z_of_string c) (z_of_string d))
   | ["macro"; "roundup"; a; b] -> string_of_z (iW_ROUNDUP (z_of_string a) (z_of_string b))
